@@ -442,6 +442,16 @@ def R4_state_model(ctx):
                 if "{closure" in tb.path or contains(ttm.operand(c.args[1], c.bb), lambda q: q == ("arg", 2)):
                     ins_sites.append((tb, c))
     ctx.check(len(ins_sites) == 1, "extend:insert-each-new", "each new entry is not inserted into the copied map exactly once (found %d insert sites fed from `entries`)" % len(ins_sites), eb.where())
+    if len(ins_sites) == 1:
+        # unconditionally: the later declaration replaces the earlier one (a query's own unit / initial value wins), whatever
+        # the old entry was — no path handles an entry without inserting it
+        tb, c = ins_sites[0]
+        if "{closure" in tb.path:
+            oku = all(tb.dominates(c.bb, rb) for rb in tb.return_blocks())
+        else:
+            lp = innermost_loop(tb, c.bb)
+            oku = lp is not None and lp[0] not in tb.reach_from_succs(lp[0], removed_blocks=[c.bb]) or (lp is not None and all(is_err_value(v) for (x_, y_) in loop_exit_edges(tb, lp[1]) for _, v in region_value(tb, (x_, y_)) if False))
+        ctx.check(oku, "extend:insert-unconditional", "a new entry is inserted only under a condition (e.g. only when the name is not present yet): the later declaration of a feature would be dropped silently", c.where(), detail="map.insert(name, new) for every entry")
     rows = [r for r in table(eb, max_paths=100000) if r.end == "return"]
     okr = any(result_variant(r.ret) == "Ok" for r in rows) and any(result_variant(r.ret) == "Err" for r in rows)
     emp = [r for r in rows if any(t[0] == "call" and t[1].endswith("is_empty") for t, _ in r.bools)]
